@@ -31,7 +31,7 @@ from coba.environments import filters as ef
 from coba.pipes import Pipes
 from coba.exceptions import CobaExit
 
-from vf.lib.c04_pipelines import (SOURCES, SRC_BIG, FILTERS, FILTERS_ONE, FILTERS_STATEFUL, build_source, make_filter, compatible,
+from vf.lib.c04_pipelines import (Built, SHORTCUTS, DUO_PAIRS, DUO_PAIRS_MORE, duo_compatible, apply_shortcut, SOURCES, SRC_BIG, FILTERS, FILTERS_ONE, FILTERS_STATEFUL, build_source, make_filter, compatible,
                                   cinter, cparams, flavour, snapshot, src_mem)
 
 warnings.simplefilter('ignore')
@@ -139,7 +139,11 @@ class C04(Check):
             '{full,p1,params} x {sibling 0,1}; a 40-interaction x 4-action LambdaSimulation (larger than Cache\'s slice of 25 and than any 128-entry '
             'memo of lazily evaluated reward/feedback functions, which the canonical form calls on every action in a fixed order) x <=1 filter (25 classes), '
             'raw {full,p1,p30,pickle} and facade {full,p1,p30,mat,cache,chunk}: all histories <=3 | <=4, thorough also Grounded next to every filter <=3; a '
-            '1001-interaction source (save batches of 1000) over {full,p1,save} <=2 | <=3. '
+            '1001-interaction source (save batches of 1000) over {full,p1,save} <=2 | <=3; collections: ONE Environments object holding two different '
+            f'environments (4 | 8 pairs of sources with other data / length / kind) x {len(SHORTCUTS)} facade shortcuts (cache, chunk, materialize, shuffle, take, '
+            'slice, scale, impute, sparse, dense, repr, noise, batch, logged, grounded, params, ... and five two-step combinations with cache/chunk) each '
+            'applied once to the collection: all histories <=3 | <=4 over {full,p1,params} x {member 0,1}, every member compared with a fresh twin of that '
+            'member alone. '
             'A history is non-trivial when the reference read is non-empty and the history pulls interactions through the pipeline at least twice')
     ASSUMPTIONS = [
         'params before the first completed full read of the object at hand are not constrained (environments may learn params lazily); afterwards they must equal the params a fresh pipeline reports after its first read',
@@ -202,6 +206,12 @@ class C04(Check):
             for g in FILTERS_ONE:
                 for ch in (['Grounded', g], [g, 'Grounded']):
                     if g != 'Grounded' and compatible('lam40', ch): yield {'src': 'lam40', 'chain': ch, 'facade': True}, [(A_BIG, 3, None)]
+        # one Environments object holding TWO different environments, every facade shortcut applied once to the collection,
+        # operations on the two members interleaved; each member must behave like a fresh twin of that member alone
+        for a, b in (DUO_PAIRS if quick else DUO_PAIRS + DUO_PAIRS_MORE):
+            for sc in SHORTCUTS:
+                if duo_compatible(a, b, sc):
+                    yield {'src': a, 'src2': b, 'short': sc, 'duo': True, 'chain': [], 'facade': True}, [(A_FAN, d1, None)]
         if quick:       # chains of two: every ordered pair of filter classes (one parameterisation each) on four sources
             for s in SRC_FEW:
                 for f in FILTERS_ONE:
@@ -245,6 +255,22 @@ class C04(Check):
         """Fresh real objects for a pipeline descriptor {'src' | 'mem', 'chain', 'facade', ['fan']}."""
         if reset: _reset_context()         # (not when a replay source builds its upstream in the middle of an operation)
         st = State()
+        if pipe.get('duo'):
+            # ONE Environments object holding two different environments, a shortcut applied once to the collection;
+            # with 'solo': j only member j (the fresh twin of that member alone)
+            names = [pipe['src'], pipe['src2']]
+            if 'solo' in pipe: names = [names[pipe['solo']]]
+            parts = [build_source(n, self._scratch()) for n in names]
+            b = Built(None, {f'{i}.{k}': v for i, x in enumerate(parts) for k, v in x.owned.items()},
+                      {f'{i}.{k}': v for i, x in enumerate(parts) for k, v in x.files.items()})
+            st.built = b; st.facade = True; st.read_done = [False, False]; st.zips = []
+            envs = apply_shortcut(pipe['short'], Environments(*[x.env for x in parts]), b.owned)
+            if len(envs) != len(parts): raise ValueError(f'{len(envs)} environments from {len(parts)}')
+            st.envs = envs; st.sibs = [envs[j] for j in range(len(envs))]; st.env = st.sibs[0]
+            if 'solo' in pipe: st.sibs = None
+            st.snap = snapshot(b)
+            return st
+        st = State()
         b = src_mem(pipe['mem']) if 'mem' in pipe else build_source(pipe['src'], self._scratch())
         flts = [make_filter(f, b.owned) for f in pipe['chain']]
         st.built = b; st.facade = pipe['facade']; st.read_done = [False, False]; st.zips = []; st.sibs = None
@@ -264,8 +290,8 @@ class C04(Check):
         """-> ('ok', [items per sibling], [params per sibling], raw items) | ('rejected', exception, None, None)"""
         try:
             refs, prms, raw = [], [], None
-            for j in range(2 if pipe.get('fan') else 1):
-                st = self.build(pipe)              # a fresh twin per sibling: its first read is undisturbed
+            for j in range(2 if (pipe.get('fan') or pipe.get('duo')) else 1):
+                st = self.build(dict(pipe, solo=j) if pipe.get('duo') else pipe)     # a fresh twin per sibling / of that member ALONE: its first read is undisturbed
                 env = st.sibs[j] if st.sibs else st.env
                 raw = list(env.read())
                 refs.append([cinter(i) for i in raw]); prms.append(cparams(env.params))
@@ -462,6 +488,9 @@ class C04(Check):
         mode and the minimal history ON THE BLAMED COMPONENT; the witness is the minimal history on the explored pipeline."""
         hist = list(hist[:fail.step + 1]) if fail.step >= 0 else []
         if hist: hist, fail = self.minimise_history(pipe, hist, fail)
+        if pipe.get('duo'):
+            kinds = ','.join(KIND.get(op_split(o)[0], op_split(o)[0]) + '@' + o[-1] for o in hist) or 'none'
+            return f"Environments.{pipe['short']}() on a collection of two environments|{fail.mode}|history={kinds}", hist, pipe
         if pipe.get('fan') and hist:
             # the same failure on the plain pipeline  ... > Shuffle(seed of the sibling read last)  ?
             pipe2 = {'src': pipe['src'], 'chain': pipe['chain'] + [f'Shuffle{op_split(hist[-1])[1]}'], 'facade': True}
@@ -478,7 +507,7 @@ class C04(Check):
 
     # -------------------------------------------------------------- a case = all histories of one pipeline starting with one operation
     def run_case(self, case, acc):
-        pipe = {k: case[k] for k in ('src', 'chain', 'facade', 'fan') if k in case}
+        pipe = {k: case[k] for k in ('src', 'src2', 'short', 'duo', 'chain', 'facade', 'fan') if k in case}
         if 'hist' in case:                                     # replay of one history
             return self.replay_history(pipe, case['hist'], acc)
         ops, depth, first, need = case['ops'], case['depth'], case['first'], set(case.get('need') or ())
@@ -531,6 +560,7 @@ class C04(Check):
 
     @staticmethod
     def label(pipe):
+        if pipe.get('duo'): return f"Environments.{pipe['short']}() on a collection of two environments"
         return ' > '.join([SOURCES[pipe['src']][1]] + [FILTERS[f][0] for f in pipe['chain']]) + (' x shuffle(n=2)' if pipe.get('fan') else '')
 
 
